@@ -439,6 +439,7 @@ type c08Hs struct {
 }
 
 func (cs *c08Case) connect(o *c08Open) (*c08Hs, error) {
+	vanished := 0
 	for try := 0; try < 60; try++ {
 		gside, mine := simPipe(simLocalAddr, c08Addr, uint16(40000+try))
 		cs.n.acceptCh <- gside
@@ -458,6 +459,14 @@ func (cs *c08Case) connect(o *c08Open) (*c08Hs, error) {
 		hd, body, err = simReadMsgRaw(mine)
 		switch {
 		case err != nil:
+			// closed without any answer. That is what gobgp does when another FSM event wins at the
+			// very instant our OPEN arrives (e.g. the graceful-restart timer of the previous session
+			// expiring while in OpenSent); only a repeated silent close is reported.
+			if vanished++; vanished < 3 {
+				hs.spk.shutdown()
+				time.Sleep(time.Second)
+				continue
+			}
 		case hd.Type == bgp.BGP_MSG_KEEPALIVE:
 			hs.accepted = true
 		case hd.Type == bgp.BGP_MSG_NOTIFICATION && len(body) >= 2:
@@ -555,6 +564,12 @@ func c08SimCase(t *testing.T, rec *vlib.Rec, idx int) {
 			}
 		}
 		o := c08GenOpen(r, l, as, as4)
+		if s > 0 {
+			// every timer gobgp armed so far started on a half-second grid and runs for whole
+			// seconds (idle hold, graceful-restart timer of the previous session): approach it off
+			// that grid, so that none of them fires at the very instant one of our messages arrives
+			time.Sleep(250 * time.Millisecond)
+		}
 		rec.Eval()
 		rec.Count("sessions", 1)
 		if s > 0 {
@@ -834,6 +849,25 @@ func (cs *c08Case) session(sno int, o *c08Open, single bool) bool {
 			cs.viol(o, "c08:extmsg:large-update-truncated", fmt.Sprintf("the %d-octet UPDATE was stored without its padding attribute", bigLen), nil)
 		default:
 			rec.Count(fmt.Sprintf("large_update_accepted_%d", bigLen), 1)
+		}
+		// take the large route back: retained as stale by a graceful-restart helper it would be
+		// re-advertised on a later 4096-octet session, and packing such attributes is C11's matter
+		nl := bigRoute.X
+		if modes[bigFam]&c08APRecv != 0 {
+			nl = append([]byte{0, 0, 0, 9}, nl...)
+		}
+		var body []byte
+		if bigFam == c08V4 {
+			body = append([]byte{byte(len(nl) >> 8), byte(len(nl))}, nl...)
+			body = append(body, 0, 0)
+		} else {
+			un := c08AttrBytes(0x80, 15, append([]byte{byte(bigFam.Afi() >> 8), byte(bigFam.Afi()), bigFam.Safi()}, nl...))
+			body = append([]byte{0, 0, byte(len(un) >> 8), byte(len(un))}, un...)
+		}
+		spk.write(append(c08Header(19+len(body), 2), body...))
+		synctest.Wait()
+		if in := c08FindIn(cs.adjIn(), bigRoute, bigID); in != nil && cs.stillEstablished() {
+			cs.viol(o, "c08:session:withdraw-of-large-route-ignored", fmt.Sprintf("the withdrawal of the %d-octet route left it in ADJ_IN", bigLen), nil)
 		}
 	}
 	if cs.failed {
@@ -1418,7 +1452,12 @@ func (cs *c08Case) openConfirmSilent(o *c08Open, res *c08Result, hs *c08Hs) {
 	time.Sleep(wait)
 	synctest.Wait()
 	code, sub, at, ok := spk.notification()
+	_, closed, closedAt := spk.snapshot()
 	switch {
+	case !ok && closed && (hold == 0 || closedAt.Before(hs.at.Add(hold))):
+		// torn down without NOTIFICATION before the hold time was over: another FSM event (the
+		// graceful-restart timer of the previous session) ended OpenConfirm; nothing to judge
+		rec.Count("openconfirm_ended_by_other_event", 1)
 	case hold == 0 && ok && code == 4:
 		cs.viol(o, "c08:hold:openconfirm-hold-timer-not-negotiated-value", fmt.Sprintf("NOTIFICATION %d/%d %v after the OPEN although the negotiated hold time is 0", code, sub, at.Sub(hs.at)), nil)
 	case hold == 0:
